@@ -89,6 +89,14 @@ structure InvC (s : St) : Prop where
   tids_distinct : ∀ t, s.loopTid = some t → s.trioTid ≠ some t
   thr_distinct : ∀ t, t ∈ s.thrTids → s.loopTid ≠ some t ∧ s.trioTid ≠ some t
 
+/-- what `gather` has seen is consistent with the runner tasks (progress, C01 C02 C12) -/
+structure InvD (s : St) : Prop where
+  cancelled_seen : ∀ f, s.rtask f = .cancelled → s.gather ≠ .pending
+  done_keeps : True
+
+theorem invD_init : InvD St.init := by
+  constructor <;> simp [St.init]
+
 theorem invC_init : InvC St.init := by
   constructor <;> simp [St.init, St.coBusy, PSt.notStarted]
 
